@@ -370,3 +370,58 @@ def tree_features(tree, depth=0, shared_loop_above=False):
             if n[0] == "S" and n[3]:
                 feats.add("persistent")
     return feats
+
+
+# ------------------------------------------------------------------------------------------------ mapper exports
+
+LEVEL_NAMES = {2: ["MainMemory", "GlobalBuffer"], 3: ["MainMemory", "GlobalBuffer", "LocalBuffer"]}
+
+
+def case_from_export(params, export):
+    """A mapping exported by harness/mapperlib.export_mapping for a matmul-chain spec → a case for the C06 reference.
+    Returns None when the export contains something outside the fragment (spatial loops, Tolls, pipelines)."""
+    wlp = params["workload"]
+    if wlp.get("kind") != "matmuls":
+        return None
+    N = wlp["N_EINSUMS"]
+    wl = chain_wl(N, wlp["M"], [wlp["KN"]] * (N + 1))
+    names = LEVEL_NAMES[params["levels"]]
+    ok = [True]
+
+    def conv_nodes(nodes):
+        """list of export nodes → tree"""
+        pre = []
+        for i, n in enumerate(nodes):
+            if "storage" in n:
+                if n["storage"] not in names:
+                    ok[0] = False
+                    return None
+                pre.append(["S", names.index(n["storage"]), list(n["tensors"]), False])
+            elif "loop" in n:
+                pre.append(["L", n["loop"], int(n["tile"])])
+            elif "compute" in n:
+                e = int(str(n["einsum"]).replace("Matmul", ""))
+                return {"pre": pre, "e": e}
+            elif "seq" in n:
+                bs = []
+                for b in n["seq"]:
+                    t = conv_nodes(b["nest"] if "nest" in b else [b])
+                    if t is None:
+                        return None
+                    bs.append(t)
+                return {"pre": pre, "bs": bs}
+            else:
+                ok[0] = False
+                return None
+        ok[0] = False
+        return None
+
+    tree = conv_nodes(export["nest"] if "nest" in export else [export])
+    if tree is None or not ok[0]:
+        return None
+    sizes = [None, params["glb_size"] if params["glb_size"] != "inf" else None]
+    if params["levels"] == 3:
+        sizes.append(params["lb_size"] if params["lb_size"] != "inf" else None)
+    nt = len(wl["tensors"])
+    return {"wl": wl, "n_levels": params["levels"], "bits": [[params["bits"]] * nt for _ in names], "tree": tree, "mode": "mapper",
+            "sizes": sizes, "ninst": 1, "level_names": names}
